@@ -588,8 +588,7 @@ def radsrvRewrite (w : World) (o : Nat) (cc : CliConf) (m0 : Msg) : World :=
         | some (uname, origUser) =>
           let as3 := as2.set ui { uattr with v := uname }
           let w := updRq w o fun r => { r with msg := some { m0 with attrs := as3 }, origUser := origUser }
-          if uname.isEmpty then rmclrqexit w       -- radattr2ascii returned NULL
-          else radsrvRoute w o cc m0 as3 ttlres uname
+          radsrvRoute w o cc m0 as3 ttlres uname
 
 /-- everything `radsrv` does after the message was parsed and its Message-Authenticators
     found valid; every path of this part returns 1 -/
